@@ -105,7 +105,7 @@ Definition png_dec (a : bytes) : res (list chunk * bytes) :=
 
 (* get_cai_data on the chunk list *)
 Definition png_payload (cs : list chunk) : res bytes :=
-  if (1 <? count is_cabx cs)%nat then RErr ETooManyManifestStores
+  if Nat.ltb 1 (count is_cabx cs) then RErr ETooManyManifestStores
   else match find is_cabx cs with
        | Some c => nonempty_or_notfound (ROk (cdata c))
        | None => RErr EJumbfNotFound
@@ -132,7 +132,7 @@ Section Crc.
       let new := mk_cabx b in
       match find_index is_cabx cs with
       | Some j =>
-        if (j <? k)%nat
+        if Nat.ltb j k
         then (* existing caBX before IHDR: drop it, insert after IHDR *)
           ROk (firstn j cs ++ slice cs (S j) (k - j) ++ [new] ++ skipn (S k) cs)
         else (* existing caBX after IHDR: insert after IHDR, skip the old one *)
